@@ -14,3 +14,4 @@ import GarbleVerif.Props.C10
 import GarbleVerif.Props.C15
 import GarbleVerif.Props.C03
 import GarbleVerif.Props.C09
+import GarbleVerif.Props.C02
